@@ -875,6 +875,10 @@ class Repo:
                 elif bt[0] == 'prim' and bt[1] == 'str':
                     if meth in ('split', 'rsplit', 'splitlines'):
                         out.add(('list', ('prim', 'str')))
+                    elif meth in ('partition', 'rpartition'):
+                        out.add(('tuple', (('prim', 'str'), ('prim', 'str'), ('prim', 'str'))))
+                    elif meth in ('find', 'rfind', 'index', 'rindex', 'count'):
+                        out.add(('prim', 'int'))
                     elif meth in ('startswith', 'endswith', 'isdigit'):
                         out.add(('prim', 'bool'))
                     else:
